@@ -125,7 +125,7 @@ def shard(idx, n, seed, tier, params):
                     got = set((pr.name_of_uri(l["uri"]),) + L.rng_tuple(l["range"]) for l in (resp.get("result") or []))
                     # `.import name as alias`: the suite pins that the usage covers `name as alias`; only its start is compared
                     got = sorted(set(((g[0], g[1], g[2], g[3], import_ends[(g[0], g[1], g[2])]) if (g[0], g[1], g[2]) in import_ends else g) for g in got
-                                     if not in_dead(g[0], g[1]) and (g[0], g[1], g[2]) not in supers))
+                                     if not in_dead(g[0], g[1])))
                     exp = set((f, ln, c0, ln, c1) for (f, ln, c0, c1) in uses.get(d.uid, ()))
                     if incl:
                         exp.add((d.pos[0], d.pos[1], d.pos[2], d.pos[1], d.pos[3]))
@@ -143,7 +143,7 @@ def shard(idx, n, seed, tier, params):
                 resp = pr.pos_request("textDocument/documentHighlight", d.pos[0], d.pos[1], col)
                 if "result" in resp:
                     got = sorted(set(L.rng_tuple(h["range"]) for h in (resp.get("result") or [])
-                                     if not in_dead(d.pos[0], h["range"]["start"]["line"]) and (d.pos[0], h["range"]["start"]["line"], h["range"]["start"]["character"]) not in supers))
+                                     if not in_dead(d.pos[0], h["range"]["start"]["line"])))
                     exp = set((ln, c0, ln, c1) for (f, ln, c0, c1) in uses.get(d.uid, ()) if f == d.pos[0])
                     exp.add((d.pos[1], d.pos[2], d.pos[1], d.pos[3]))
                     if got != sorted(exp):
